@@ -13,6 +13,10 @@ modes
                                               seeded sample of the larger ones through tseitin.encode, the checker,
                                               convert_cnf; the CNF of the NEGATED formula through sat.solve_cnf
                                               (events in solve_out) and, with `prove`, proofrec.solve_cnf
+  repeats <vectors.ndjson> <out.ndjson> <solve_out.ndjson> <check_level> [prove]
+                                              EVERY formula of the TLC-enumerated family with a repeated sub-formula
+                                              (X op X in every 0-2 connective context; vectors flagged rep) through
+                                              tseitin.encode / checker / convert_cnf, its CNF through sat.solve_cnf
   rformulas <n> <out.ndjson> <solve_out.ndjson> <seed> [prove]
                                               same on seeded random formulas with 3..5 connectives over <= 3 atoms (half of them wrapped into tautology schemes)
 No verdict is computed here: only projection of results to JSON.
@@ -350,11 +354,11 @@ def lit_ids(cnf_named):
     return out, names
 
 
-def tseitin_event(f, src, vid=0):
+def tseitin_event(f, src, vid=0, level=0):
     H = hol()
     t = mk(f)
     ev = {"kind": "tseitin", "src": src, "vid": vid, "formula": f, "hyps": [], "concl": NONE_F, "cnf": [],
-          "chk": {"outcome": "none", "hyps": [], "concl": NONE_F, "gaps": 0}}
+          "chk": {"outcome": "none", "hyps": [], "concl": NONE_F, "gaps": 0, "level": level}}
     outcome, pt, _ = timed(H["tseitin"].encode, t, limit=20.0)
     ev["outcome"] = outcome
     if outcome == "ok":
@@ -378,10 +382,12 @@ def tseitin_event(f, src, vid=0):
         rpt = H["report"].ProofReport()
 
         def chk():
-            return H["theory"].check_proof(pt.export(), rpt, check_level=0)
+            # check_level 0 = every macro expanded to primitive inferences; 1 = macros of level <= 1 trusted
+            return H["theory"].check_proof(pt.export(), rpt, check_level=level)
         o3, res, _ = timed(chk, limit=30.0)
         if o3 == "ok":
-            ev["chk"] = {"outcome": "accepted", "hyps": [prop(h) for h in res.hyps], "concl": prop(res.prop), "gaps": len(rpt.gaps)}
+            ev["chk"] = {"outcome": "accepted", "hyps": [prop(h) for h in res.hyps], "concl": prop(res.prop), "gaps": len(rpt.gaps),
+                         "level": level}
         else:
             ev["chk"]["outcome"] = "rejected" if o3 == "raised:CheckProofException" else o3
     ev["key"] = "tseitin:%s" % digest(f)
@@ -444,6 +450,8 @@ def tseitin_mode(vec_path, out_path, solve_out, seed, full_upto, sample, prove):
     rnd = random.Random(seed * 104729 + 3)
     small, big = [], []
     for vid, v in read_vectors(vec_path):
+        if v.get("rep"):
+            continue            # the repeated-sub-formula family is replayed completely by the `repeats` mode
         (small if nconn(v["formula"]) <= full_upto else big).append((vid, v["formula"]))
     if len(big) > sample:
         big = sorted(rnd.sample(big, sample))
@@ -455,6 +463,34 @@ def tseitin_mode(vec_path, out_path, solve_out, seed, full_upto, sample, prove):
     log.close()
     slog.close()
     print("tseitin formulas", len(small), "+", len(big), "events", log.tid, "solve events", slog.tid)
+
+
+def repeats_mode(vec_path, out_path, solve_out, level, prove):
+    """Every formula of the family Repeats (X op X in every small context; TLC-enumerated, flagged rep) through
+    tseitin.encode / checker / convert_cnf; the produced CNF itself (repeated and complementary literals) through
+    sat.solve_cnf; with `prove` also the end-to-end prover."""
+    log, slog = Log(out_path), Log(solve_out)
+    n = 0
+    for vid, v in read_vectors(vec_path):
+        if not v.get("rep"):
+            continue
+        f = v["formula"]
+        ev = tseitin_event(f, "rep", vid, level)
+        log.write(ev)
+        if ev["outcome"] == "ok" and ev["cnf"]:
+            try:
+                cnf, names = lit_ids([[(nm, b) for nm, b in clause] for clause in ev["cnf"]])
+                sev = solve_event(cnf, names, "tseitin_rep", vid)
+                sev["names"] = names
+                slog.write(sev)
+            except Exception:
+                pass
+        if prove:
+            log.write(prove_events(f, "rep", slog, vid))
+        n += 1
+    log.close()
+    slog.close()
+    print("repeats formulas", n, "events", log.tid, "solve events", slog.tid)
 
 
 def random_formula(rnd, n, atoms):
@@ -522,6 +558,8 @@ if __name__ == "__main__":
         random_mode(int(a[1]), a[2], int(a[3]), int(a[4]) if len(a) > 4 else 12)
     elif mode == "tseitin":
         tseitin_mode(a[1], a[2], a[3], int(a[4]), int(a[5]), int(a[6]), len(a) > 7 and a[7] == "prove")
+    elif mode == "repeats":
+        repeats_mode(a[1], a[2], a[3], int(a[4]), len(a) > 5 and a[5] == "prove")
     elif mode == "rformulas":
         rformulas_mode(int(a[1]), a[2], a[3], int(a[4]), len(a) > 5 and a[5] == "prove")
     elif mode == "replay_solve":
